@@ -330,7 +330,56 @@ def run(run):
             run.bad("C16.L4", "tag-shape", where(b), "expected one css_tag.extend and one enclosing.push in enclose_deep_first (found %d/%d)" % (len(ext), len(psh)))
     # ---------------- L5 "inside" = bounding box inside bounding box
     l5(run)
+    # ---------------- L6 every parsed entry is kept, in order
+    l6(run)
     run.assume("the float comparisons of can_fit are exact on the values compared (no tolerance); what bounds() returns for each shape is C12's/C05's matter")
+
+
+VEC_REWRITE = re.compile(r"Vec::<T, A>::(iter_mut|retain|retain_mut|dedup\w*|insert|remove|swap_remove|clear|truncate|pop|drain|split_off|resize\w*|append)$|"
+                         r"<impl \[T\]>::(iter_mut|sort\w*|reverse|swap|rotate_\w+|fill\w*|last_mut|first_mut|get_mut)$|IndexMut<.*>>::index_mut$|DerefMut>::deref_mut$")
+
+
+def l6(run):
+    """L6 [N]: "every `name = {declarations}` entry ... yields the CSS rule ..., in order".  Between the legend parser and
+    the rule template (L1) sits the list `CellBuffer.css_styles`: it is only ever *appended to* with all parsed entries
+    (`extend(parsed)` or a loop pushing every item), never rewritten in place, de-duplicated, sorted or truncated."""
+    prog = run.prog
+    writers, appends = [], []
+    for p in sorted(prog.bodies):
+        if prog.bodies[p].get("crate") != "svgbob":
+            continue
+        ex = None
+        for bid, t in prog.calls(p):
+            if not t["args"]:
+                continue
+            ex = ex or Expr(prog, p)
+            a0 = strip(ex.operand(t["args"][0]))
+            tgt = a0
+            while tgt[0] == "call" and re.search(r"Deref(Mut)?>::deref(_mut)?$", tgt[1]) and tgt[2]:
+                tgt = strip(tgt[2][0])
+            if tgt[0] not in ("param", "field") or tuple(tgt[2])[-1:] != ("css_styles",):
+                continue
+            n = Program.callee_name(t)
+            if VEC_REWRITE.search(n):
+                writers.append((p, t, n))
+            elif re.search(r"Extend<.*>>::extend$|Vec::<T, A>::extend_from_slice$", n) and len(t["args"]) == 2:
+                src = strip(ex.operand(t["args"][1]))
+                whole = src[0] == "param" and not src[2] or (src[0] == "call" and re.search(r"into_iter$|::iter$|Clone>::clone$", src[1]) and strip(src[2][0])[0] == "param" and not strip(src[2][0])[2])
+                (appends if whole else writers).append((p, t, n if whole else n + " of a derived collection"))
+            elif re.search(r"Vec::<T, A>::push$", n) and len(t["args"]) == 2:
+                from ..common import guards as _g
+                gs = _g(prog, p, bid, direct=True)
+                per_item = len(gs) == 1 and strip(gs[0][0])[0] == "discr" and mentions(gs[0][0], lambda z: z[0] == "call" and z[1].endswith("Iterator>::next")) and gs[0][1] == 1
+                item = strip(ex.operand(t["args"][1]))
+                of_param = mentions(item, lambda z: z[0] == "call" and z[1].endswith("Iterator>::next")) and mentions(item, lambda z: z[0] == "param" and z[1] >= 2 and not z[2])
+                (appends if per_item and of_param else writers).append((p, t, n if per_item and of_param else n + " under a condition"))
+    for p, t, n in writers:
+        run.bad("C16.L6", "css-list-rewritten/%s" % short(p), where(t),
+                "%s changes the stored legend entries with %s: an entry can be replaced, dropped or moved, so not every `name = {..}` yields its rule in order" % (short(p), short(n)))
+    if appends and not writers:
+        run.ok("C16.L6", "the parsed legend entries are only appended, all of them, in order (%d site(s))" % len(appends), where(appends[0][1]))
+    elif not appends and not writers:
+        run.missing("C16.L6", "the site that stores the parsed legend entries (css_styles)")
 
 
 def l5(run):
